@@ -76,6 +76,11 @@ CHECKS = {
          "The reference JA3 is written from the JA3 specification and parses the bytes the harness sent; it shares no code with honeytrap's TLS fork.",
          "Hellos are well-formed for the fork's parser; the handshake is not completed (the failed-handshake event carries the fields).",
          "DESIGN.md §5 C13"),
+ "C20": ("exploration",
+         "runtime monitoring: probe bursts written into the real receive loop (verif constructor) with the real knock detector and its 5 s timer; the portscan events captured after the tick are compared with the set of probed protocol/port pairs per source (exactly once, no foreign pairs, one event per protocol group); the grouping container is compared with a set model over all operation sequences up to length 6 on 3 keys (exhaustive)",
+         "Each scenario owns a listener instance; 48 instances run concurrently per wave so the real-time wait for the detector is shared. All interleavings of 2 sources x 3 probes and (thorough) 3 x 2, seeded bursts of 1..150 probes over TCP/UDP/ICMP with repeated ports from 1..4 sources.",
+         "Events are awaited up to 16 s (three detector periods); verdicts are on content. TCP port 22 and decoded UDP ports are not probed.",
+         "DESIGN.md §5 C20"),
 }
 
 NOT_YET = {
